@@ -928,7 +928,12 @@ where
 
     /// Get the total number of blobs stored
     fn len(&self) -> usize {
-        self.stats.blob_stats.blob_count
+        // Count the live records themselves: the statistics are optional
+        // (`enable_statistics == false` leaves `blob_stats.blob_count` at 0).
+        self.record_to_blob_map
+            .iter()
+            .filter(|&&blob_id| blob_id != usize::MAX)
+            .count()
     }
 
     /// Flush any pending operations to storage
